@@ -399,11 +399,18 @@ class Run(RunBase):
         """The scaled inputs for input k. In 'memo_inputs' worlds the caller computes them once per calculator
         epoch and keeps them, so that later Lij calls are NOT preceded by tags2preene/preene2betafree calls on the
         calculator (otherwise the harness's own input preparation would be part of every history)."""
+        src = calc
+        if self.w.get("ref_arrays"):
+            # the caller prepared its plain arrays elsewhere, on a freshly constructed calculator with the same
+            # arguments (another program run, a table on disk): the meaning of position i in bFSV/bFT1/bFT2 (which
+            # star, which jump type) must not depend on the history of the calculator that is handed the arrays
+            src = self.wd.reference(self.N, self.w["grids"][0])
+            self.faults["arrays-prepared-on-a-fresh-calculator"] += 1
         if not self.w.get("memo_inputs"):
-            return self.pool.arrays(calc, k)
-        key = (0 if calc is self.calc else 1, k % len(self.pool))
+            return self.pool.arrays(src, k)
+        key = (0 if calc is self.calc else 1, k % len(self.pool), self.N)
         if key not in self.arrmemo:
-            self.arrmemo[key] = self.pool.arrays(calc, k)
+            self.arrmemo[key] = self.pool.arrays(src, k)
         else:
             self.probes["lij-without-preceding-input-conversion"] += 1
         return [a.copy() for a in self.arrmemo[key]]
@@ -1167,6 +1174,7 @@ class Engine(object):
         w["own_crystal"] = rng.random() < 0.5
         w["kwcalls"] = rng.random() < 0.5
         w["lookalike"] = c in ("sc", "scnosym") and rng.random() < 0.5
+        w["ref_arrays"] = rng.random() < 0.35
         w["class"] = "{}/N{}/G{}".format(c, "".join(map(str, ranges)), "".join(map(str, grids)))
         return w
 
